@@ -59,6 +59,11 @@ INNER = [
      "branches": [{"from": "s1", "ends": ["s2", "end"], "multi": False, "pol": [["s2"], ["end"], ["s2"], ["end"]]}]},
     {"mode": "dag", "nodes": ["s1", "s2"], "edges": [["start", "s1", "cd"], ["start", "s2", "cd"], ["s1", "end", "cd"], ["s2", "end", "cd"]],
      "branches": []},
+    # a cycle with its own step limit (compile option of the graph node): two rounds fit into max=4, not into max=2
+    {"mode": "pregel", "nodes": ["s1", "s2"], "edges": [["start", "s1", "cd"], ["s1", "s2", "cd"]], "max": 4, "cyclic": True,
+     "branches": [{"from": "s2", "ends": ["s1", "end"], "multi": False, "pol": [["s1"], ["s1"], ["s1"], ["end"], ["end"], ["end"], ["end"], ["end"], ["end"], ["end"]]}]},
+    {"mode": "pregel", "nodes": ["s1", "s2"], "edges": [["start", "s1", "cd"], ["s1", "s2", "cd"]], "max": 2, "cyclic": True,
+     "branches": [{"from": "s2", "ends": ["s1", "end"], "multi": False, "pol": [["s1"], ["s1"], ["s1"], ["end"], ["end"], ["end"], ["end"], ["end"], ["end"], ["end"]]}]},
 ]
 
 
@@ -75,7 +80,10 @@ def nest(scs, rnd, frac, marks=False):
         s2 = copy.deepcopy(sc)
         inner = copy.deepcopy(INNER[rnd.randrange(len(INNER))])
         inner["id"] = "inner"
-        inner.update({"before": [], "after": [], "rerun": [], "fail": [], "max": 0})
+        cyclic = inner.pop("cyclic", False)
+        inner.update({"before": [], "after": [], "rerun": [], "fail": [], "max": inner.get("max", 0)})
+        if cyclic and (marks or s2.get("fail")):
+            continue                 # the cyclic inner shapes are for the step-limit clause only
         moved = [f for f in s2.get("fail", []) if f["n"] == n]
         if moved:           # the failing node moves inside the graph node: the error path must be [n, s2]
             s2["fail"] = [f for f in s2["fail"] if f["n"] != n]
@@ -272,7 +280,7 @@ def c01(tier, repo=None):
     def chains(rnd):
         scs, run = engine.gen_chains("ChainGen_q.cfg" if tier == "quick" else "ChainGen_t.cfg")
         log("  family chain: %d chain scenarios (stage sequences x branch policies, TLC %d states) with their lowering" % (len(scs), run.distinct))
-        return scs
+        return scs + nest(scs, rnd, 0.5)       # half of them once more with a stage member turned into a graph (AppendGraph / Parallel.AddGraph / ChainBranch.AddGraph)
     return run_engine_check("C01", tier, model_cfgs=models, families=fams, decorate_kw={"echo_frac": 0.12}, nontrivial=nontrivial,
                             nest_frac=0.08, repo=repo, extra_scenarios=chains,
                             assumptions=["graphs in which an edge and a branch of one source target the same node are outside the universe"])
